@@ -328,6 +328,14 @@ def interpret(prog):
 
 # --------------------------------------------------------------------------------------------------------------
 # running the real library and comparing (harness side; the only place that touches scinumtools)
+def error_class(got):
+    """behaviour class of an ('err', type, message) outcome of `execute`"""
+    if got[1] == "EnvironmentUnreadable":
+        inner = got[2].split("'")[1] if "'" in got[2] else "?"
+        return "environment-unreadable:" + inner
+    return "raises:" + got[1]
+
+
 def _py(v):
     """numpy scalars / arrays -> plain python"""
     if hasattr(v, "tolist") and not isinstance(v, (str, bytes)):
@@ -337,6 +345,10 @@ def _py(v):
     if isinstance(v, list):
         return [_py(x) for x in v]
     return v
+
+
+class EnvironmentUnreadable(Exception):
+    """parse() returned an environment, but env.data() raised on it"""
 
 
 def execute(texts):
@@ -350,8 +362,11 @@ def execute(texts):
         with DIP(env) as dip:
             dip.add_string(text)
             env = dip.parse()
-    typed = env.data(Format.TYPE)
-    tup = env.data(Format.TUPLE)
+    try:
+        typed = env.data(Format.TYPE)
+        tup = env.data(Format.TUPLE)
+    except Exception as e:
+        raise EnvironmentUnreadable(type(e).__name__, str(e)[:200])
     out = []
     if list(typed) != list(tup):
         return [dict(path="<formats>", cls="paths of Format.TYPE and Format.TUPLE differ", precision=None,
